@@ -92,7 +92,7 @@ def sig(case):
 
 
 def spaces(tier, seed):
-    N = 8 if tier == "quick" else 11
+    N = 10 if tier == "quick" else 12
     return [Space('krylov_approximations', core.chunked(_cases(N), 100), run_case=run_case, sig=sig,
                   bounds={'n<=': N, 'm': '1..n+2', 'dt': [str(x) for x in DTS], 'matrix_kinds': kc.MATRIX_KINDS_H + kc.MATRIX_KINDS_G,
                           'presentations': kc.PRESENTATIONS})]
